@@ -75,6 +75,7 @@ func devCmd(args []string) {
 	nofam := fs.Bool("nofam", false, "skip families")
 	show := fs.Bool("show", false, "print obligations")
 	max := fs.Int("max", 0, "max instances")
+	tmo := fs.Int("timeout", 20000, "solver timeout (ms)")
 	fs.Parse(args)
 	start := time.Now()
 	u, st, err := setup(*repo)
@@ -85,7 +86,7 @@ func devCmd(args []string) {
 	fmt.Printf("loaded in %v; %d funcs, %d contracts\n", time.Since(start), len(u.Funcs), len(u.Contracts))
 	tmp, _ := os.MkdirTemp("", "govc-")
 	defer os.RemoveAll(tmp)
-	d := &Discharger{Prelude: u.Prelude, Dir: tmp, TimeoutMs: 20000, Primary: []string{"z3-new", "z3", "cvc5"}, Stats: newStats(), Workers: runtime.NumCPU(), KeepFailed: "/tmp/govc-failed"}
+	d := &Discharger{Prelude: u.Prelude, Dir: tmp, TimeoutMs: *tmo, Primary: []string{"z3-new", "z3", "cvc5"}, Stats: newStats(), Workers: runtime.NumCPU(), KeepFailed: "/tmp/govc-failed"}
 	for _, key := range fs.Args() {
 		fi := u.Funcs[key]
 		if fi == nil || fi.Contract == nil {
